@@ -8,13 +8,13 @@ mkdir -p .work/tmp evidence
 python3 - <<'PY'
 import sys, os
 sys.path.insert(0, "tools")
-import vlib
+import vlib, maclib, e2e
 vlib.build_coq()
 vlib.build_model_runner()
+maclib.prepare_mac()
+e2e.support_args()
 for h in sorted(os.listdir("harness")):
     if os.path.exists(os.path.join("harness", h, "Cargo.toml")):
-        if hasattr(vlib, "prepare_" + h):
-            getattr(vlib, "prepare_" + h)()
         ok, out = vlib.build_harness(h)
         print("harness", h, "ok" if ok else "FAILED")
         if not ok:
